@@ -222,6 +222,15 @@ def case_strategy(draw):
         doc = draw(G.bundle(ver, opts, max_members=3, mixed=True))
         return {"ver": ver, "doc": doc, "wrap": "alone", "text": text, "shape": "bundle"}
     doc = draw(G.valid_object(ver, opts=opts))
+    cprops = M.get(ver).props(M.get(ver).class_for_type(doc["type"]) or "")
+    if "granular_markings" in cprops and "labels" in cprops and draw(st.integers(0, 9)) == 0:
+        # a list of more than ten elements with granular markings on its late elements (index order is not text order: [10] < [2])
+        n = draw(st.integers(11, 13))
+        doc["labels"] = (list(doc.get("labels") or []) + ["label-%d" % i for i in range(n)])[:n]
+        idx = draw(st.lists(st.sampled_from([1, 2, 9, 10, n - 1]), min_size=1, max_size=3, unique=True))
+        doc["granular_markings"] = list(doc.get("granular_markings") or []) + [
+            {"marking_ref": "marking-definition--613f2e26-407d-48c7-9eca-b8e91df99dc9", "selectors": ["labels.[%d]" % i for i in idx]}]
+        shape = "long-list"
     return {"ver": ver, "doc": doc, "wrap": wrap, "text": text, "shape": shape}
 
 
